@@ -195,7 +195,10 @@ vars == <<case, l, verdicts>>
 
 OctF == {I3, <<<<0, 0 - 1, 0>>, <<1, 0, 0>>, <<0, 0, 1>>>>, <<<<0, 0, 1>>, <<1, 0, 0>>, <<0, 1, 0>>>>, <<<<1, 0, 0>>, <<0, 0, 1>>, <<0, 0 - 1, 0>>>>}
 VS == {<<0, 0, 0>>, <<1, 0 - 1, 2>>, <<0 - 2, 0, 1>>, <<0, 3, 1>>}
-PCases == [kind : {"P"}, F : OctF, rho : {0, 2}, al : {<<1, 1>>, <<2, 3>>}, rP : {<<1, 0 - 2, 3>>, <<0, 1, 1>>}, vP : VS, vQ : {Z3, <<1, 1, 0>>}, O : VS, aP : {<<2, 0, 0 - 1>>}, Y : {<<1, 1, 0 - 1>>}]
+\* tilted plane bases: rotations of the integer quaternions (2,1,0,0) and (1,1,1,0), as integer matrix and common denominator
+Bases == {[F |-> f, s |-> 1] : f \in OctF} \cup
+         {[F |-> <<<<5, 0, 0>>, <<0, 3, 0 - 4>>, <<0, 4, 3>>>>, s |-> 5], [F |-> <<<<1, 2, 2>>, <<2, 1, 0 - 2>>, <<0 - 2, 2, 0 - 1>>>>, s |-> 3]}
+PCases == [kind : {"P"}, B : Bases, S : {1, 3}, rho : {0, 2}, al : {<<1, 1>>, <<2, 3>>}, rP : {<<1, 0 - 2, 3>>, <<0, 1, 1>>}, vP : VS, vQ : {Z3, <<1, 1, 0>>}, O : VS, aP : {<<2, 0, 0 - 1>>}, Y : {<<1, 1, 0 - 1>>}]
 PythR == {<<3, 4, 0>>, <<0 - 4, 3, 0>>, <<0, 3, 0 - 4>>, <<4, 0, 3>>, <<0, 0, 2>>, <<5, 0, 0>>, <<0, 0 - 3, 0>>}
 Axes == {<<1, 0, 0>>, <<0, 1, 0>>, <<0, 0, 0 - 1>>}
 ISqrt(x) == IF \E k \in 0..30 : k * k = x THEN CHOOSE k \in 0..30 : k * k = x ELSE 0
@@ -205,17 +208,20 @@ GOf(c) == [tr |-> c.tr, d |-> ISqrt(Dot3(c.r, c.r)), m |-> ISqrt(Dot3(Cross(c.tr
 ZOf(c) == [r |-> c.r, v |-> c.v, Os |-> c.Os]
 
 PIdent(c) ==
-    LET p == [F |-> c.F, rho |-> c.rho, al |-> c.al, s |-> 1, S |-> 1]
+    LET p == [F |-> c.B.F, rho |-> c.rho, al |-> c.al, s |-> c.B.s, S |-> c.S]
         X == [rP |-> c.rP, rQ |-> <<1, 1, 0 - 1>>]  U == [vP |-> c.vP, vQ |-> c.vQ, O |-> c.O]
-        A == [aP |-> c.aP, aQ |-> <<0, 1, 0>>, Y |-> c.Y]  n == Col(c.F, 3)
-        Sp == VSub(X.rP, VScale(c.rho, n))                                     \* the sphere's point closest to the plane
-    IN /\ PGN(p, X) = Dot3(n, VSub(Sp, X.rQ))                                  \* the gap is the signed distance of that point
+        A == [aP |-> c.aP, aQ |-> <<0, 1, 0>>, Y |-> c.Y]  n == Col(p.F, 3)       \* s times the unit normal; lengths in units of 1 / S
+        Sp == VSub(VScale(p.s, X.rP), VScale(p.S * c.rho, n))                   \* s S times the sphere's point closest to the plane
+    IN /\ Dot3(n, n) = p.s * p.s /\ Dot3(Col(p.F, 1), Col(p.F, 2)) = 0 /\ Dot3(Col(p.F, 1), n) = 0 /\ Dot3(Col(p.F, 2), n) = 0
+       /\ Cross(Col(p.F, 1), Col(p.F, 2)) = VScale(p.s, n)                      \* F / s is a rotation
+       /\ p.s * PGN(p, X) = Dot3(n, VSub(Sp, VScale(p.s, X.rQ)))                \* the gap is the signed distance of that point
        /\ PGNdot(p, X, U) = Dot3(n, VSub(U.vP, U.vQ))
        /\ PGNddot(p, X, U, A) = Dot3(n, VSub(A.aP, A.aQ))
        /\ PGFdot(p, X, U, A) = PGF(p, X, PAasU(A))
        \* the slip velocity misses exactly the normal part of the relative velocity of the touching points
-       /\ LET vrel == VSub(VAdd(U.vP, Cross(U.O, VSub(Sp, X.rP))), U.vQ)  gf == PGF([p EXCEPT !.al = <<1, 1>>], X, U) IN
-          gf[1] * gf[1] + gf[2] * gf[2] = Dot3(vrel, vrel) - Dot3(n, vrel) * Dot3(n, vrel)
+       /\ LET vrel == VSub(VSub(VScale(p.s, U.vP), VScale(p.S * c.rho, Cross(U.O, n))), VScale(p.s, U.vQ))       \* s S times the relative velocity
+              gf == PGF([p EXCEPT !.al = <<1, 1>>], X, U) IN
+          gf[1] * gf[1] + gf[2] * gf[2] = p.s * p.s * Dot3(vrel, vrel) - Dot3(n, vrel) * Dot3(n, vrel)
 SIdent(c) ==
     LET g == GOf(c)  Z == ZOf(c)  Acc == [a |-> c.a, Ys |-> c.Ys]
         w == W(c.tr, Z)  wr == Cross(Z.r, w)
